@@ -30,9 +30,9 @@ func init() {
 		},
 		N: func(t string) int {
 			if t == "thorough" {
-				return 200000
+				return 1000000
 			}
-			return 8000
+			return 30000
 		},
 		Batch: 2500,
 		Init:  per.SelfTest,
